@@ -123,7 +123,13 @@ def gate(prog, fn, g_bb, b_bb, success=None, unwind=False):
         if len(reach) == len(arms):
             continue  # not a gate: all arms reach b
         if kind == 'enum':
-            labs = [labels.get(a[0], a[0]) for a in reach]
+            labs = []
+            listed = {labels.get(a[0], a[0]) for a in arms if a[0] != 'otherwise'}
+            for a in reach:
+                if a[0] == 'otherwise' and labels:
+                    labs.extend(sorted(set(labels.values()) - listed) or ['otherwise'])
+                else:
+                    labs.append(labels.get(a[0], a[0]))
             if all(l in success for l in labs):
                 return True, 'switch at bb%d on %s: only arm(s) %s reach the site' % (s, show(e)[:80], labs)
             reasons.append('switch at bb%d: arm(s) %s reach the site' % (s, labs))
